@@ -744,7 +744,7 @@ def evidence_extra(records, dones, tier):
 WIDE_KINDS = ["ang", "dih", "plain_ang", "dih", "ang", "plain_dih", "hist", "named", "ang", "dih", "named", "hist"]
 NWIDE = {"quick": 300, "thorough": 6000}
 ROW_SHAPES = ["one", "simd", "desc", "chain-shuffled", "repeat", "shared", "thousands", "windows"]
-NEW_EDITS = ["shuffle_atoms", "cellscatter", "derived", "cellscatter"]
+NEW_EDITS = ["shuffle_atoms", "cellscatter", "derived", "forcefield_names", "cellscatter"]
 PERIODIC_TRUE = [True, "np.True_", 1]
 PERIODIC_FALSE = [False, "np.False_", 0]
 SMALL_FILES = ["1bpi.pdb", "2EQQ.pdb", "1vii.pdb", "native.pdb", "frame0.h5", "ala_ala_ala.pdb", "aaqaa-wat.pdb", "bpti.pdb", "4OH9.pdb"]
@@ -969,9 +969,32 @@ def _shuffle_atoms(t, rng):
 _edit_original = _edit
 
 
+def _forcefield_names(t, rng, ctx):
+    """a copy whose HIS / CYS / ASP / GLU / LYS residues carry force-field state names (HID, HSP, CYX, ASH, ...)"""
+    import mdtraj as md
+    t2 = md.Trajectory(np.array(t.xyz, copy=True), t.topology.copy(), unitcell_lengths=None if t.unitcell_lengths is None else t.unitcell_lengths.copy(),
+                       unitcell_angles=None if t.unitcell_angles is None else t.unitcell_angles.copy())
+    n = 0
+    cands = [r for r in t2.topology.residues if r.name in R.AMINO_STATE_NAMES]
+    if not cands:  # no such residue in this structure: give a few others the commonest variants' names anyway
+        pool = [r for r in t2.topology.residues if r.name in ("ALA", "SER", "LEU", "GLY", "VAL")]
+        for r in pool[:: max(1, len(pool) // 4)][:4]:
+            r.name = "HID"
+            n += 1
+    for r in cands:
+        if rng.random() < 0.8:
+            vs = R.AMINO_STATE_NAMES[r.name]
+            r.name = vs[int(rng.integers(len(vs)))]
+            n += 1
+    ctx.observe("forcefield_state_names", "renamed %s residues" % ("no" if n == 0 else ("1-3" if n <= 3 else ">3")))
+    return t2
+
+
 def _edit(t, edit, rng, ctx):  # noqa: F811
     if edit == "shuffle_atoms":
         return _shuffle_atoms(t, rng)
+    if edit == "forcefield_names":
+        return _forcefield_names(t, rng, ctx)
     if edit in ("cellscatter", "derived"):
         return t
     return _edit_original(t, edit, rng, ctx)
